@@ -318,8 +318,25 @@ fn gen_c04(tier: &str, rng: &mut Rng) -> Vec<Case> {
                 cfg.max_wrap = Some(m);
                 (inner, w.min(m), String::new(), true)
             }
-            2 if deco != 3 => (format!("<blockquote>{}</blockquote>", inner), w.saturating_sub(2), "> ".to_string(), false),
-            _ if deco != 3 => (format!("<ul><li>{}</li></ul>", inner), w.saturating_sub(2), "* ".to_string(), false),
+            2 if deco != 3 => {
+                // a maximum wrap width applies to the narrower block inside the prefix too
+                let mut eff = w.saturating_sub(2);
+                if rng.chance(1, 2) {
+                    let m = rng.range(1, 45);
+                    cfg.max_wrap = Some(m);
+                    eff = eff.min(m);
+                }
+                (format!("<blockquote>{}</blockquote>", inner), eff, "> ".to_string(), false)
+            }
+            _ if deco != 3 => {
+                let mut eff = w.saturating_sub(2);
+                if rng.chance(1, 2) {
+                    let m = rng.range(1, 45);
+                    cfg.max_wrap = Some(m);
+                    eff = eff.min(m);
+                }
+                (format!("<ul><li>{}</li></ul>", inner), eff, "* ".to_string(), false)
+            }
             _ => (inner, w, String::new(), true),
         };
         let id = cases.len();
